@@ -426,6 +426,53 @@ def _name_as_text(fn, e, pth: str, seen=None, depth=0) -> bool:
     return any(_name_as_text(fn, x, pth, seen, depth + 1) for x in ast.iter_child_nodes(e) if isinstance(x, ast.expr))
 
 
+def r19_10(ctx: Ctx, entry):
+    """report_id is the SHA-256 of the input BYTES: what reaches hashlib.sha256(..) in `plan report` is read in binary mode
+    (`open(p, "rb").read()`, `read_bytes()`, `sys.stdin.buffer.read()`), directly or through local names -- never the re-encoding of
+    decoded text (text mode translates CRLF / CR to LF, so two different inputs get one id and the id is not the hash of the bytes)."""
+    from ..order import local_resolver
+    res = local_resolver(entry.node)
+    n = 0
+
+    def binary(e, seen=frozenset(), depth=0):
+        if depth > 8:
+            return False
+        if isinstance(e, ast.Name):
+            if e.id in seen:
+                return False
+            ds = res(e)
+            return bool(ds) and all(binary(d, seen | {e.id}, depth + 1) for d in ds)
+        if isinstance(e, ast.Call) and isinstance(e.func, ast.Attribute):
+            if e.func.attr == "read_bytes":
+                return True
+            if e.func.attr == "read" and not e.args:
+                if "stdin.buffer" in norm(e.func.value):
+                    return True
+                if isinstance(e.func.value, ast.Name):
+                    # the file object: a with-target of open(.., "rb")
+                    for w in own_nodes(entry):
+                        if isinstance(w, ast.With):
+                            for it in w.items:
+                                if isinstance(it.optional_vars, ast.Name) and it.optional_vars.id == e.func.value.id and isinstance(it.context_expr, ast.Call) \
+                                        and norm(it.context_expr.func).split(".")[-1] == "open" and any(
+                                            isinstance(a_, ast.Constant) and isinstance(a_.value, str) and "b" in a_.value
+                                            for a_ in list(it.context_expr.args[1:]) + [k.value for k in it.context_expr.keywords if k.arg == "mode"]):
+                                    return True
+            return False
+        return False
+    for c in own_nodes(entry):
+        if isinstance(c, ast.Call) and (dotted(c.func) or "").endswith("sha256") and c.args:
+            n += 1
+            ok = binary(c.args[0])
+            ctx.ob("R19.10", f"{entry.qual}: {norm(c)[:60]} hashes the input bytes", (entry, c), ok,
+                   "the hashed value is what a binary read returned" if ok else
+                   f"the value hashed for report_id ({norm(c.args[0])[:50]}) is not the result of a binary read: decoded and re-encoded text differs from "
+                   "the input bytes (CRLF / CR line endings), so report_id is not the SHA-256 of the input and different inputs share an id",
+                   key=key_of("R19.10", entry, None, "hash of bytes"))
+    if not n:
+        raise AnchorMissing("plan.report: no hashlib.sha256(..) call found")
+
+
 def r19_8(ctx: Ctx, entry):
     """Input handling of the command:
       (a) what is written into the temporary project file is the input's content, constants and the random report id -- never
@@ -560,6 +607,7 @@ def r19_5(ctx: Ctx):
 
 
 def run_extra(ctx: Ctx):
+    r19_10(ctx, ctx.repo.func("report", rel="scriptplan/cli/plan.py"))
     # ---------------------------------------------------------------- R19.9 nothing rendered is answered from state that outlives the question
     from .common import process_state_rule
     process_state_rule(ctx, "R19.9", [ctx.repo.func("Report.generate")],
